@@ -56,6 +56,13 @@ func ruleBlockVerificationChain(r *Run, rule string) {
 	}
 	r.RequireAtCall(rule, "visor.Blockchain.ExecuteBlock", "iface:visor.chainStore.AddBlock", 1,
 		req("block stored only after processBlock accepted it", "ok(visor.Blockchain.processBlock($0, $1, *))"))
+	// what is stored is the block processBlock returned (in arbitrating mode the filtered copy), never the input
+	if fn := r.P.Fn("visor.Blockchain.ExecuteBlock"); fn != nil {
+		for _, cs := range r.CallSites(fn, "iface:visor.chainStore.AddBlock") {
+			t := r.argTerm(cs, 1)
+			r.Check(rule, "ExecuteBlock stores the block returned by processBlock", r.P.Pos(cs.Pos()), glob("visor.Blockchain.processBlock($0, $1, *)#0", t), "AddBlock argument is "+t)
+		}
+	}
 }
 
 func checkC01(r *Run) {
